@@ -13,6 +13,24 @@ FIRST_MISSED = {  # caught only after the extension named here (recorded while t
  "C17-m1": "`.goitignore` (re)written later in the history, so that tracked paths become ignored; oracle refined (Appendix B, 10)",
  "C17-m2": "absolute and parent-relative spellings of `add` arguments (`$PWD`, `../w`, `$PWD/.goit/config`)",
  "C18-m2": "invalid-by-construction lines `<valid path> <unknown path>` for add/rm/restore",
+ # round 2 (m3/m4)
+ "C01-m3": "C01 CLI ends with rm of everything, write-tree and commit: the zero-length tree must be stored and retrievable",
+ "C02-m3": "history keeps the blob id of the bytes each path had at its last add (clause 3 is checked against it); new step `revert` (a file goes back to bytes it held before)",
+ "C03-m4": "branch names N and N.tmp / N.lock in the pools",
+ "C05-m3": "tracked file replaced by a directory with both staged (`file2dir` in profiles commit/readback, shadow entries in crafted staging areas)",
+ "C05-m4": "twin directories with identical content (`copydir` step; twin sub-trees in crafted staging areas)",
+ "C06-m4": "new part TestC06Large: staging areas of up to 400 entries / 70 KiB whose size sweeps across 4096/8192/65536",
+ "C10-m4": "not caught by C10 — it is a journal defect (a successful switch adds no entry) and is caught by C11",
+ "C12-m3": "identity configured locally, globally or mixed in the C12 CLI layer",
+ "C12-m4": "message lines around 4096 / 8192 bytes and up to 10 KiB",
+ "C13-m3": "new step `recreate-unstaged` (a path that was committed and unstaged comes back as an untracked file)",
+ "C14-m3": "neutralised: after the repair of the ignore translation (`.goitignore` entries are quoted) the seeded check never fires for `name/` and `*.ext` entries; its demonstration passes on the repaired tree",
+ "C16-m4": "fault corpus states with several sibling directories (a failing readdir followed by a succeeding one)",
+ "C17-m3": "directories carrying an ignorable extension, `dir2file` step, three-valued ignore classification (ignored / not ignored / unspecified)",
+ "C17-m4": "extension pairs where one is a prefix of the other (`.tmp`, `.tmpx`) and a drawn order of the `.goitignore` entries",
+ "C18-m4": "unusual but legal branch names (trailing blank, ': ') created in the history prefix, followed by commit / reset",
+ "C19-m3": "quick tier mutates the first 64 positions of every file completely (the count field of the index header)",
+ "C20-m4": "config values whose line crosses 4096 / 8192 bytes",
 }
 print("### D.1 Changes written by independent sub-agents (`seeded/<ID>-mN/`)\n")
 print("Each was confirmed with `lib/intake.sh` (demonstration exits 0 on the clean tree; with the patch the tree builds, the unit tests pass, the demonstration exits 1). \"quick check\" is the exit status of the property's quick tier against the patched tree with the final harness.\n")
